@@ -266,7 +266,7 @@ struct Addr { int kind = 0, open_after = 0; };
 struct ConnCase {
   int mode = 0, family = 0, close_on_destroy = 0, timeout_ms = 0, prequeue = 0, backlog = 16, reuseaddr = 0, keepalive = 0, stale_path = 0, stop_at = 0, stop_how = 1,
       timeout_action = 0, wait_timeout_end = 0, target = 0, destroy_in_cb = 0, cb_ret = 0, max_tries = 1, retry_delay_ms = 0, time_limit_ms = 0, f_rr = 0,
-      f_initial_delay = 0, f_every = 0, protocol = 0, cut_after = 0, arg_case = 0, sock_fault_k = 0, accept_fault_k = 0, fault_errno = 0;
+      f_initial_delay = 0, f_every = 0, protocol = 0, cut_after = 0, cut_close_only = 0, arg_case = 0, sock_fault_k = 0, accept_fault_k = 0, fault_errno = 0;
   std::vector<Cli> cli;
   std::vector<Addr> addrs;
   Bytes plan;
@@ -277,7 +277,7 @@ struct ConnCase {
         .i("reuseaddr", reuseaddr).i("keepalive", keepalive).i("stale_path", stale_path).i("stop_at", stop_at).i("stop_how", stop_how).i("timeout_action", timeout_action)
         .i("wait_timeout_end", wait_timeout_end).i("target", target).i("destroy_in_cb", destroy_in_cb).i("cb_ret", cb_ret).i("max_tries", max_tries)
         .i("retry_delay_ms", retry_delay_ms).i("time_limit_ms", time_limit_ms).i("f_rr", f_rr).i("f_initial_delay", f_initial_delay).i("f_every", f_every)
-        .i("protocol", protocol).i("cut_after", cut_after).i("arg_case", arg_case).i("sock_fault_k", sock_fault_k).i("accept_fault_k", accept_fault_k)
+        .i("protocol", protocol).i("cut_after", cut_after).i("cut_close_only", cut_close_only).i("arg_case", arg_case).i("sock_fault_k", sock_fault_k).i("accept_fault_k", accept_fault_k)
         .i("fault_errno", fault_errno);
     std::vector<long long> v;
     for (auto &x : cli) { v.push_back(x.pause); v.push_back(x.close_early); }
@@ -296,7 +296,7 @@ struct ConnCase {
     c.stop_how = (int)r.i("stop_how", 1); c.timeout_action = (int)r.i("timeout_action"); c.wait_timeout_end = (int)r.i("wait_timeout_end"); c.target = (int)r.i("target");
     c.destroy_in_cb = (int)r.i("destroy_in_cb"); c.cb_ret = (int)r.i("cb_ret"); c.max_tries = (int)r.i("max_tries", 1); c.retry_delay_ms = (int)r.i("retry_delay_ms");
     c.time_limit_ms = (int)r.i("time_limit_ms"); c.f_rr = (int)r.i("f_rr"); c.f_initial_delay = (int)r.i("f_initial_delay"); c.f_every = (int)r.i("f_every"); c.protocol = (int)r.i("protocol");
-    c.cut_after = (int)r.i("cut_after"); c.arg_case = (int)r.i("arg_case"); c.sock_fault_k = (int)r.i("sock_fault_k"); c.accept_fault_k = (int)r.i("accept_fault_k"); c.fault_errno = (int)r.i("fault_errno");
+    c.cut_after = (int)r.i("cut_after"); c.cut_close_only = (int)r.i("cut_close_only"); c.arg_case = (int)r.i("arg_case"); c.sock_fault_k = (int)r.i("sock_fault_k"); c.accept_fault_k = (int)r.i("accept_fault_k"); c.fault_errno = (int)r.i("fault_errno");
     auto v = r.iv("clients");
     for (size_t j = 0; j + 2 <= v.size(); j += 2) c.cli.push_back(Cli{(int)v[j], (int)v[j + 1]});
     v = r.iv("addrs");
@@ -315,6 +315,10 @@ static Verdict conn_safety(const ConnCase &c, const c16c_out &o, bool unbounded)
   PBT_REQUIRE(o.res.live_allocs == 0, "task memory not released: " << o.res.live_allocs << " allocation(s)");
   PBT_REQUIRE(o.res.double_free == 0, "task freed twice");
   PBT_REQUIRE(o.cb_after_stop == 0, o.cb_after_stop << " callback(s) after stop/destroy (or after the final report) had returned on the task's own thread");
+  if (o.cut_done) {
+    PBT_REQUIRE(o.natt == o.natt_at_cut, (o.natt - o.natt_at_cut) << " connect attempt(s) were made after " << (c.cut_close_only ? "tp_task_ident_close()" : "tp_task_destroy()") << " had returned on the task's own thread");
+    if (c.cut_close_only) label("cut_by_ident_close_only");
+  }
   PBT_REQUIRE(!o.hang, "hang: the owner thread stopped serving its queue");
   if (!unbounded) {
     if (o.ncb > C16C_MAX_CB) PBT_REQUIRE(o.wait_failed == 0, "an expected report never came (ceiling hit) while " << o.ncb << " other callbacks were made");
@@ -725,7 +729,7 @@ static Verdict run_conn(const ConnCase &c) {
   for (size_t i = 0; i < c.addrs.size(); i++) { s->addrs[i].kind = (uint8_t)c.addrs[i].kind; s->addrs[i].open_after = (uint8_t)c.addrs[i].open_after; }
   s->max_tries = (uint32_t)c.max_tries; s->retry_delay_ms = (uint32_t)c.retry_delay_ms; s->time_limit_ms = (uint32_t)c.time_limit_ms;
   s->f_rr = (uint8_t)c.f_rr; s->f_initial_delay = (uint8_t)c.f_initial_delay; s->f_every = (uint8_t)c.f_every; s->protocol = c.protocol;
-  s->cut_after = (uint8_t)c.cut_after; s->arg_case = (uint8_t)c.arg_case;
+  s->cut_after = (uint8_t)c.cut_after; s->cut_close_only = (uint8_t)c.cut_close_only; s->arg_case = (uint8_t)c.arg_case;
   const bool valid_args = c.mode == 3 && c.arg_case == 0 && !(c.f_initial_delay && c.retry_delay_ms == 0) && !(c.time_limit_ms != 0 && (c.timeout_ms == 0 || c.timeout_ms >= c.time_limit_ms));
   if (valid_args && in_retry_timer_class(c) && known(K_RETRY_TIMER)) { excluded(K_RETRY_TIMER); s->known_timer_wa = 1; }
   if (valid_args && in_addr_idx_class(c) && known(K_ADDR_IDX)) { excluded(K_ADDR_IDX); if (s->cut_after == 0 || s->cut_after > 6) s->cut_after = 6; }
@@ -815,6 +819,7 @@ static rc::Gen<ConnCase> genConn() {
       c.stop_how = *range<int>(1, 2);
       c.destroy_in_cb = *rc::gen::weightedElement<int>({{2, 0}, {1, 1}});
       c.cut_after = *rc::gen::weightedElement<int>({{4, 0}, {2, *range<int>(1, 6)}});
+      c.cut_close_only = *range<int>(0, 1);
       bool any_unix = false;
       for (auto &a : c.addrs) any_unix |= a.kind == 1;
       c.protocol = any_unix ? 0 : *rc::gen::element<int>(0, IPPROTO_TCP);
